@@ -21,7 +21,7 @@ Imports `Lemmas/DescriptorRawSize.lean` for `Descriptor.findRaw` (that file and 
 Core Lean only.
 -/
 import PsdVerif.Model.PayloadCostDesc
-import PsdVerif.Lemmas.DescriptorRawSize
+import PsdVerif.Model.DescriptorRaw
 
 namespace PsdVerif.PayloadCost
 open PsdVerif PsdVerif.Codec PsdVerif.PsdCost PsdVerif.Payload PsdVerif.Payload3
